@@ -62,3 +62,53 @@ class CutFor:
         for lab, goal, exact in self.inv(ip, fr, k + 1):
             st.oblige('%s#preservation[%d]:%s' % (tag, k, lab), goal, exact=exact)
         raise CutPath()
+
+
+class CutWhile:
+    """while <test>: the first `unroll` iterations are executed as they are;
+    every later iteration is covered by one cut: from an arbitrary state
+    satisfying the invariant, one execution of the body re-establishes the
+    invariant and strictly decreases the (bounded below) variant.
+
+    havoc(ip, fr): install an arbitrary invariant state (ghost iteration count etc.).
+    inv(ip, fr) -> [(label, goal, exact)];  variant(ip, fr) -> int / term.
+    """
+
+    def __init__(self, unroll, havoc, inv, variant, doc=''):
+        self.unroll = unroll
+        self.havoc = havoc
+        self.inv = inv
+        self.variant = variant
+        self.doc = doc
+
+    def run_while(self, ip, node, fr):
+        from .interp import _Continue, _Break
+        from .sym import I
+        st = ip.st
+        tag = 'loop@%d' % node.lineno
+        for n in range(self.unroll):
+            if not st.truth(ip.eval(node.test, fr), '%s#test-%d' % (tag, n)):
+                return
+            try:
+                ip.exec_block(node.body, fr)
+            except _Break:
+                return
+            except _Continue:
+                continue
+        for lab, goal, exact in self.inv(ip, fr):
+            st.oblige('%s#initiation:%s' % (tag, lab), goal, exact=exact)
+        self.havoc(ip, fr)
+        if not st.truth(ip.eval(node.test, fr), '%s#test' % tag):
+            return
+        v0 = self.variant(ip, fr)
+        st.oblige('%s#variant-bounded-below' % tag, I(v0) >= 0)
+        try:
+            ip.exec_block(node.body, fr)
+        except _Break:
+            return
+        except _Continue:
+            pass
+        for lab, goal, exact in self.inv(ip, fr):
+            st.oblige('%s#preservation:%s' % (tag, lab), goal, exact=exact)
+        st.oblige('%s#variant-decreases' % tag, I(self.variant(ip, fr)) < I(v0))
+        raise CutPath()
